@@ -51,7 +51,7 @@ func init() {
 	})
 	register("C05", func(r *Run) error {
 		return runB(r, &BSpec{
-			ID: "C05", Profiles: []string{"stateful"}, Gen: withLR([]string{"stateful"}, 4, true),
+			ID: "C05", Profiles: []string{"stateful"}, Gen: withLR([]string{"stateful", "stateful", "statefulthrow"}, 4, true),
 			Grammars: [2]int{192, 1600}, Cases: [2]int{500, 1000}, Variants: plainAndOptimized,
 			Rule:        "grammars from profile stateful (#{} blocks with scripted ops on shallow ints and an in-place mutated Cloner list, at arbitrary positions: rejected alternatives, failing sequences, & !, repetitions), with and without -optimize-parser; rapid draws (entry, input, InitState seeds, globalStore seed, whether actions/predicates attempt state writes); compared: the c.state and globalStore snapshot seen by every code block against the reference's transactional store, plus the parse value. Non-trivial = >=1 rollback of a non-empty state delta and >=2 events.",
 			Assumptions: commonAssumptions,
@@ -75,7 +75,7 @@ func init() {
 	})
 	register("C14", func(r *Run) error {
 		return runB(r, &BSpec{
-			ID: "C14", Profiles: []string{"throwrecover"},
+			ID: "C14", Profiles: []string{"throwrecover", "throwrecover", "statefulthrow"},
 			Grammars: [2]int{192, 1600}, Cases: [2]int{500, 1000}, Variants: plainAndOptimized,
 			Rule:        "grammars from profile throwrecover (nested recovery operators, several and shared labels, throws in called rules, inside repetitions and predicates, handlers that fail, unhandled labels); compared with the reference's dynamic handler stack: success, consumed prefix, value (recovery expression's value in place of the throw), code-block trace. Non-trivial = >=1 throw handled or a failing handler falling through to an outer one.",
 			Assumptions: commonAssumptions,
@@ -132,8 +132,8 @@ func init() {
 func init() {
 	register("C10", func(r *Run) error {
 		return runB(r, &BSpec{
-			ID: "C10", Profiles: []string{"codeblocks", "stateful", "faults", "throwrecover", "stateful", "utf8"},
-			Gen:      withLR([]string{"codeblocks", "stateful", "faults", "throwrecover", "stateful", "utf8"}, 4, true),
+			ID: "C10", Profiles: []string{"codeblocks", "stateful", "faults", "throwrecover", "statefulthrow", "utf8"},
+			Gen:      withLR([]string{"codeblocks", "stateful", "faults", "throwrecover", "statefulthrow", "utf8"}, 4, true),
 			Grammars: [2]int{192, 1600}, Cases: [2]int{500, 1000},
 			Variants: func(i int, g *gspec.Grammar) []batch.Variant {
 				x := [][]string{nil, {"-optimize-basic-latin"}, {"-nolint"}, {"-support-left-recursion"}, {"-optimize-basic-latin", "-nolint"}, {"-support-left-recursion", "-optimize-basic-latin"}}[i%6]
